@@ -51,7 +51,9 @@ pub fn fmt_num(x: f64) -> String {
 /// one text line per abstract component
 pub fn render_comp(c: &AbsComp) -> String {
     let vals = c.v.iter().map(|x| fmt_num(*x)).collect::<Vec<_>>().join(", ");
-    let cm = if c.cm.is_empty() { String::new() } else { format!(" # {}", c.cm) };
+    // the comment class "@lowscop" stands for the tag the library looks for
+    let text = if c.cm == "@lowscop" { "CTEEPBD_EXCLUYE_SCOP_ACS" } else { c.cm.as_str() };
+    let cm = if text.is_empty() { String::new() } else { format!(" # {}", text) };
     match c.kind.as_str() {
         "USED" => format!("{}, CONSUMO, {}, {}, {}{}", c.id, c.srv, c.cr, vals, cm),
         "PROD" => format!("{}, PRODUCCION, {}, {}{}", c.id, c.src, vals, cm),
